@@ -16,7 +16,7 @@ RULE = ("one real ExtendedDaemonSet Reconcile per point of the product of the qu
         "x replica-set age {duration-1s, duration, duration+1s} x noRestartsDuration {unset, 0, 300s} x last restart {none, "
         "noRestarts-1s ago, noRestarts+1s ago} x pause source {none, annotation, replica-set condition} x unpause {absent, true} x "
         "canary-valid {absent, this replica set, another} x Canary-Failed {no, yes} x recorded active replica set {present, gone}: "
-        "11664 points, enumerated completely in the thorough tier, sampled (400) in the quick tier, plus random ExtendedDaemonSet "
+        "15552 points, enumerated completely in the thorough tier, sampled (400) in the quick tier, plus random ExtendedDaemonSet "
         "worlds. Non-trivial = a status write changed or could have changed activeReplicaSet (two distinct candidates).")
 ASSUMPTIONS = [
     "the two replica-set pointers never alias inside Reconcile (the up-to-date one is a deep copy)",
@@ -41,7 +41,7 @@ FACTORS = [
     [-1, 0, 1],                           # age - duration
     [None, 0, 300],                       # noRestartsDuration
     [None, -1, 1],                        # time since last restart minus noRestarts (None: no restart)
-    ["none", "annotation", "condition"],  # pause source
+    ["none", "annotation", "condition", "annotation+oldcond"],  # pause source (the last: annotation, and a Canary-Paused=False condition left by an earlier pause)
     [False, True],                        # unpause annotation
     [None, "this", "other"],              # canary-valid
     [False, True],                        # failed
@@ -59,7 +59,7 @@ def lattice_case(pt):
     s = K.default_strategy(canary=canary)
     tplA, tplB = K.template(image="img:1"), K.template(image="img:2")
     ann = {}
-    if pause == "annotation":
+    if pause in ("annotation", "annotation+oldcond"):
         ann[P.A_PAUSED] = "true"
     if unpause:
         ann[P.A_UNPAUSED] = "true"
@@ -72,6 +72,8 @@ def lattice_case(pt):
         conds.append(K.cond("Canary-Failed", "True", trans=-30, reason="CrashLoopBackOff"))
     if pause == "condition":
         conds.append(K.cond("Canary-Paused", "True", trans=-20, reason="ImagePullBackOff"))
+    if pause == "annotation+oldcond":
+        conds.append(K.cond("Canary-Paused", "False", trans=-20, reason="ImagePullBackOff"))
     if rst is not None:
         base = nr if nr is not None else 300
         conds.append(K.cond("PodRestarting", "True", trans=-(base + 100), update=-(base + rst)))
@@ -93,7 +95,7 @@ def generate(rng, tier, stats):
         pts = rng.sample(pts, 400)
     out = [lattice_case(pt) for pt in pts]
     stats["lattice_points"] = len(pts)
-    stats["lattice_total"] = 11664
+    stats["lattice_total"] = 15552
     nw = 100 if tier == "quick" else 1500
     for _ in range(nw):
         out.append(worldgen.gen_eds_world(rng, stats, {"scenario": rng.choice(["canary_running", "canary_running", "canary_failed", "active_missing", "no_canary_update", "many_rs"])}))
